@@ -139,4 +139,24 @@ theorem skipGroup_if_nested (fuel level : Nat) (post : List Nat) :
   simp [skipGroup, get, solAfter, isSpace, skipWs, skipComment, readWord, isAlnum, skipBlanks, readArgs,
     word_endif, word_if, word_ifdef, word_ifndef, word_else, word_elif, word_elifdef, word_elifndef]
 
+/-- `#else` at the start of a line, at nesting level 0, ends the skipped group (the reader then
+decides whether the `#else` group is taken) -/
+theorem skipGroup_else (fuel : Nat) (post : List Nat) :
+    skipGroup (fuel + 1) 0 ⟨some 35, true, [101, 108, 115, 101, 10] ++ post⟩ = (.els, ⟨some 10, true, post⟩) := by
+  simp [skipGroup, get, solAfter, isSpace, skipWs, skipComment, readWord, isAlnum, skipBlanks, readArgs,
+    word_endif, word_if, word_ifdef, word_ifndef, word_else, word_elif, word_elifdef, word_elifndef]
+
+/-- … and inside a nested conditional it is passed over: the level stays -/
+theorem skipGroup_else_nested (fuel level : Nat) (post : List Nat) :
+    skipGroup (fuel + 1) (level + 1) ⟨some 35, true, [101, 108, 115, 101, 10] ++ post⟩ =
+      skipGroup fuel (level + 1) ⟨some 10, true, post⟩ := by
+  simp [skipGroup, get, solAfter, isSpace, skipWs, skipComment, readWord, isAlnum, skipBlanks, readArgs,
+    word_endif, word_if, word_ifdef, word_ifndef, word_else, word_elif, word_elifdef, word_elifndef]
+
+/-- a `#` that is not the first character of its line is not a directive, whatever follows it -/
+theorem skipGroup_hash_midline (fuel level : Nat) (rest : List Nat) :
+    skipGroup (fuel + 1) level ⟨some 35, false, rest⟩ =
+      skipGroup fuel level (skipComment (rest.length + 1) (get false rest)) := by
+  simp [skipGroup]
+
 end IgVerif.Skip
